@@ -100,7 +100,7 @@ CLAIMED = {
    technique="Coq proof of the filter chain (by induction over the hrefs) + document-grammar decider + differential correspondence",
    ref="6 C17"),
  "C19": dict(
-   text="Proved in Coq for every string, oracle tables and option (closed under the global context): the route functions behind parse_youtube_url, parse_facebook_url, parse_twitter_url, parse_instagram_url, parse_telegram_url and parse_google_drive_url never raise (every positional access to a path segment or query value is guarded, so truncated routes give None: the model raises IndexError / KeyError exactly where the Python code would); the parsers raise nothing but the standard parser's ValueError; YouTube video / short ids, Instagram shortcodes and usernames and Telegram message ids inside a returned record satisfy the module's validators; the truncated routes of the statement compute to None; Google Drive records parse back from the path segments of their canonical url (route level, except the file whose id is the segment 'pub'). PARTIAL: that re-parsing record.url (Facebook; Google Drive at url level) / normalize_youtube_url(u) gives the same record and that normalize_youtube_url is idempotent is decided by the harness over the route grammar of the quantifier on the implementation (four known findings: dot / empty segments, query metacharacters in Facebook ids, reserved YouTube channel names, the Drive id 'pub'), and the models of all 29 public functions of the six modules are compared with the implementation.",
+   text="Proved in Coq for every string, oracle tables and option (closed under the global context): the route functions behind parse_youtube_url, parse_facebook_url, parse_twitter_url, parse_instagram_url, parse_telegram_url and parse_google_drive_url never raise (every positional access to a path segment or query value is guarded, so truncated routes give None: the model raises IndexError / KeyError exactly where the Python code would); the parsers raise nothing but the standard parser's ValueError; YouTube video / short ids, Instagram shortcodes and usernames and Telegram message ids inside a returned record satisfy the module's validators; the truncated routes of the statement compute to None; Google Drive records (except the file whose id is the segment 'pub') and YouTube users, channels by id and shorts parse back from the components of their canonical url (route level, for fields that are one clean path segment). PARTIAL: that re-parsing record.url (Facebook; Google Drive at url level) / normalize_youtube_url(u) gives the same record and that normalize_youtube_url is idempotent is decided by the harness over the route grammar of the quantifier on the implementation (four known findings: dot / empty segments, query metacharacters in Facebook ids, reserved YouTube channel names, the Drive id 'pub'), and the models of all 29 public functions of the six modules are compared with the implementation.",
    note="Trusted: Coq kernel, translator (regex ASTs, name blacklists, url templates), extraction, driver, harness. A ValueError raised because urllib's urlsplit rejects the string (unbalanced brackets) is the library-wide convention and counts as expected. Eleven genuine defects repaired (fix: commits).",
    technique="Coq proof of route totality, exception kinds and id validity + exhaustive route-grammar decider + differential correspondence",
    ref="6 C19"),
